@@ -34,7 +34,11 @@ def attribute(run, line, verdict):
             revived = {e["u"] for e in upto if e.get("e") == "Revive"}
             return "C12" if ev.get("u") in revived and k == "Start" else "C01"
         if k in ("JoinRet", "FreeRet", "JoinCall", "FreeCall"):
-            return "C12+C03" if ev.get("u") in cancelled else "C03"   # a cancelled target must still release its joiner
+            if ev.get("u") in cancelled:
+                return "C12+C03"  # a cancelled target must still release its joiner
+            if k in ("JoinRet", "FreeRet") and ev.get("u") not in finished:
+                return "C03+C01"  # the join returned before the unit had run to completion
+            return "C03"
         if k in ("XJoinRet", "FinalizeRet"):
             us = ev.get("us", [])
             lost = [u for u in us if u not in started and u not in cancelled]
